@@ -410,7 +410,7 @@ fn run_export(s: &Script, calls: Vec<*mut Call>) {
         (h.sets.len(), h.subs.len(), h.ctx0)
     });
     if code & 0xf == 0 && (sets != 0 || subs != 0 || ctx != 0) {
-        ev(&format!("!host-leftovers:sets={sets},subs={subs},ctx={}", (ctx != 0) as u8));
+        ev(&format!("!host-leftovers:sets={sets}/subs={subs}/ctx={}", (ctx != 0) as u8));
     }
 }
 
